@@ -117,6 +117,8 @@ def build_value(r):
         return (build_value(r[1]), copy.deepcopy(CTX[r[2]]))
     if k == "list":
         return [1, 2]
+    if k == "bytes":
+        return b"raw%d" % r[1] if r[1] else b""
     # element-specific
     if k == "hist1d":
         return (h1d(), copy.deepcopy(CTX[r[1]])) if r[1] else h1d()
@@ -240,7 +242,8 @@ def setup_sandbox():
 GENERIC_B = [["int", 3], ["int", 4], ["float"], ["t2"], ["t3"], ["V", 1], ["V", 2], ["none"], ["dict"],
              ["pair", ["int", 7], "plain"], ["pair", ["V", 3], "output_scalar"], ["pair", ["int", 8], "output_other"],
              ["pair", ["list"], "plain"], ["pair", ["int", 9], "variable"], ["pair", ["int", 1], "empty"],
-             ["pair", ["int", 2], "combine"], ["pair", ["t3"], "plain"]]
+             ["pair", ["int", 2], "combine"], ["pair", ["t3"], "plain"],
+             ["bytes", 1], ["bytes", 0], ["pair", ["bytes", 2], "plain"]]
 STR_B = [["str", 1], ["str", 2], ["pair", ["str", 3], "plain"], ["pair", ["str", 4], "variable"]]
 
 ELEMENTS = {
@@ -254,6 +257,12 @@ ELEMENTS = {
     "RenderLaTeX": {"make": lambda: RenderLaTeX("t.tex", template_dir="templates"),
                     "A": [["csvval", 1], ["csvval", 2], ["csvval", 3]],
                     "B": GENERIC_B + STR_B + [["str_filetype", "tex"], ["str_filetype", "pdf"], ["hist1d", "plain"]]},
+    "RenderLaTeXVerbose": {"make": lambda: RenderLaTeX("t.tex", template_dir="templates", verbose=2),
+                           "A": [["csvval", 1], ["csvval", 2]],
+                           "B": GENERIC_B + STR_B + [["str_filetype", "tex"], ["hist1d", "plain"]]},
+    "WriteVerbose": {"make": lambda: Write("out", verbose=True),
+                     "A": [["text", 1, False, "a"], ["text_bare", 1]],
+                     "B": GENERIC_B + [["str_nowrite"], ["written_path", 1], ["hist1d", "plain"]]},
     "LaTeXToPDF": {"make": lambda: LaTeXToPDF(verbose=0, create_command=_stub_cmd),
                    "A": [["texfile", 0], ["texfile", 1], ["texfile", 2]],
                    "B": GENERIC_B + STR_B + [["str_filetype", "csv"], ["str_filetype", "pdf"], ["hist1d", "plain"]], "multiset": True},
@@ -301,7 +310,10 @@ def run_flow(name, flow):
     try:
         audit_on()
         try:
-            out = list(spec["make"]().run(iter(flow)))
+            import contextlib
+            import io
+            with contextlib.redirect_stdout(io.StringIO()):
+                out = list(spec["make"]().run(iter(flow)))
         finally:
             log = audit_off()
     finally:
